@@ -199,7 +199,7 @@ def spawn_once(ctx, W, cfgs, timeout):
     try:
         for r in range(W):
             procs.append(subprocess.Popen([sys.executable, str(WORKER), str(job), str(r), str(W), str(port), str(outs[r])], env=env, stdout=errf, stderr=errf))
-        deadline = time.time() + timeout
+        deadline = time.time() + timeout + 4 * len(cfgs)
         abort_deadline = None
         while True:
             alive = [p for p in procs if p.poll() is None]
@@ -346,11 +346,11 @@ def driver_line(cfg, res, single, variant):
 def parse_reply(cfg, rep):
     if rep.startswith("bad"):
         return None
-    head, init, steps, union, draws = rep.split("|")
+    head, init, steps, union, draws, ebs = rep.split("|")
     W, D, T = cfg["W"], sum(cfg["dims"]), len(cfg["steps"])
     fl = lambda s: [h2f(x) for x in s.split()]
     init, steps, union = fl(init), fl(steps), fl(union)
-    m = {"err": None}
+    m = {"err": None, "ebs": [h2f(x) for x in ebs.split()]}
     if head != "ok":
         w = head.split()
         m["err"] = (int(w[1]), sorted(int(x) for x in w[2:]))
@@ -384,6 +384,8 @@ def vec_eq(a, b, exact):
 
 def is_exact(cfg):
     C = cfg["C"] if isinstance(cfg["C"], list) else [cfg["C"]]
+    if cfg["variant"] == "perlayer_hooks" and cfg["W"] not in (1, 2, 4):
+        return False  # torch DDP divides by W
     return cfg["reduction"] == "sum" and all(c >= 1e9 for c in C) and cfg["sigma"] in (0.0, 0.5, 1.0, 2.0)
 
 
@@ -428,10 +430,16 @@ def compare_with_model(cfg, res, single, m):
     elif ie is not None:
         if (ie[0], ie[1]) != tuple(m["err"]) or EMPTY_MSG not in ie[2]:
             diffs.append(f"error: impl {ie} model {m['err']}")
+    want_cls = {"flat": "DistributedDPOptimizer", "ghost": "DistributedDPOptimizerFastGradientClipping",
+                "perlayer_simple": "SimpleDistributedPerLayerOptimizer", "perlayer_hooks": "DistributedPerLayerOptimizer"}[cfg["variant"]]
     for r in range(W):
         if res[r] is None or "params_after_wrap" not in res[r]:
             diffs.append(f"rank {r}: no construction result")
             continue
+        if res[r].get("optimizer_class") != want_cls:
+            diffs.append(f"rank {r}: optimizer class {res[r].get('optimizer_class')} expected {want_cls}")
+        if res[r].get("expected_batch_size") != m["ebs"][0]:
+            diffs.append(f"rank {r}: optimizer.expected_batch_size impl {res[r].get('expected_batch_size')} model {m['ebs'][0]}")
         if not vec_eq(flat2(res[r]["params_after_wrap"]), m["init"][r], True):
             diffs.append(f"rank {r}: params after wrap impl {res[r]['params_after_wrap']} model {m['init'][r]}")
     nst = len(m["steps"])
@@ -449,6 +457,8 @@ def compare_with_model(cfg, res, single, m):
     # single-process engine on the union batch vs the model's union run
     if "error" in single:
         diffs.append(f"single-process construction raised {single['error']}")
+    elif single.get("expected_batch_size") != m["ebs"][1]:
+        diffs.append(f"single-process optimizer.expected_batch_size impl {single.get('expected_batch_size')} model {m['ebs'][1]}")
     for t in range(len(cfg["steps"])):
         st = single["steps"][t] if t < len(single.get("steps", [])) else {}
         if not vec_eq(flat2(st.get("grad")), m["union"][t][0], exact) or not vec_eq(flat2(st.get("params")), m["union"][t][1], exact):
@@ -573,7 +583,7 @@ def plan_configs(ctx):
     if ctx.thorough:
         plan = []
         for W in (1, 2, 3, 4):
-            plan += [(W, None)] * {1: 6, 2: 40, 3: 40, 4: 30}[W]
+            plan += [(W, None)] * {1: 10, 2: 110, 3: 110, 4: 80}[W]
     else:
         plan = [(2, v) for v in ("flat", "ghost", "perlayer_simple", "perlayer_hooks", "flat", "ghost", "perlayer_simple", "perlayer_hooks", None, None)]
         plan += [(3, v) for v in ("flat", "perlayer_hooks", "ghost", "perlayer_simple")]
